@@ -168,14 +168,17 @@ func VC03_extend() {
 	f.rotate1()
 	vrt.Assert(f.err == nil && f.current.Load() != nil, "file opens")
 	s := &c3state{c: &Counter{name: "c", file: f}}
-	s.c.Add(1)
-	s.begun = 1
+	// the counter either already has its record and pointer, or is used for the first time
+	if vrt.Bool() {
+		s.c.Add(1)
+		s.begun = 1
+	}
 	// make the first page look full: the next record has to go to a new page
 	m := f.current.Load()
 	d := m.mapping.Data
 	lim := uint32(pageSize - 32)
 	d[m.hdrLen], d[m.hdrLen+1], d[m.hdrLen+2], d[m.hdrLen+3] = byte(lim), byte(lim>>8), byte(lim>>16), byte(lim>>24)
-	c3run(f, s, 1, func() {
+	c3run(f, s, s.begun, func() {
 		p := f.lookup("other")
 		vrt.Assert(p.count != nil, "the other counter gets its record in the extended file")
 		vrt.Assert(f.current.Load() != m, "the file was remapped")
@@ -188,10 +191,12 @@ func VC03_rotate() {
 	f.rotate1()
 	vrt.Assert(f.err == nil && f.current.Load() != nil, "file opens")
 	s := &c3state{c: &Counter{name: "c", file: f}}
-	s.c.Add(1)
-	s.begun = 1
+	if vrt.Bool() {
+		s.c.Add(1)
+		s.begun = 1
+	}
 	old := f.current.Load()
-	c3run(f, s, 1, func() {
+	c3run(f, s, s.begun, func() {
 		day := vrt.DaysFromCivil(2024, 1, 20)
 		CounterTime = func() time.Time { return time.Unix(day*86400+100, 0).UTC() }
 		f.rotate1()
